@@ -77,4 +77,115 @@ def restore {κ : Type} (dec : Bytes → Option κ) (st : St κ) (snap : Nat × 
 /-- restart: the driver replays only what lies above the durable applied index -/
 def replayTail (applied : Nat) (log : List Cmd) : List Cmd := log.filter (fun c => c.index > applied)
 
+/-! ### the fence / pending-migration-state overlay of ApplyBatch, explicitly
+    (statemachine.go: isHashSlotFenced, stageMigrationFence, applyMigrationOutboxAck,
+    applyMigrationOutboxCleanup, loadOrCreateMigrationState) -/
+
+/-- migration row of a hash slot as far as fencing goes: `none` = no row, `some f` = a row, fenced iff `f` -/
+abbrev Mig := Option Bool
+
+inductive FKind where
+  | fence      -- EnterFence
+  | ack        -- AckMigrationOutbox
+  | cleanup    -- CleanupMigrationOutbox that covers the whole outbox (deletes the row)
+  | normal     -- any command subject to the fence
+deriving DecidableEq, Repr
+
+structure FCmd where
+  kind : FKind
+  hs : Nat
+deriving DecidableEq, Repr
+
+/-- batch-local state: `pending` = the Go map pendingMigrationStates (EXISTING rows only),
+    `staged` = what the write batch will do to the row at commit (upsert / delete) -/
+structure FBatch where
+  pending : Nat → Option Bool := fun _ => none
+  staged : Nat → Option Mig := fun _ => none
+
+def upd {α : Type} (f : Nat → α) (k : Nat) (v : α) : Nat → α := fun x => if x = k then v else f x
+
+/-- the view every lookup in the batch loop uses: the pending map, else the COMMITTED db -/
+def viewCode (db : Nat → Mig) (b : FBatch) (hs : Nat) : Mig :=
+  match b.pending hs with
+  | some f => some f
+  | none => db hs
+
+/-- a read-your-writes view: what the write batch has staged, else the committed db -/
+def viewTrue (db : Nat → Mig) (b : FBatch) (hs : Nat) : Mig :=
+  match b.staged hs with
+  | some m => m
+  | none => db hs
+
+/-- one command of the batch loop under a given view; returns the new batch state and
+    whether the command was answered `fenced` (only `normal` commands can be) -/
+def fstepB (view : (Nat → Mig) → FBatch → Nat → Mig) (db : Nat → Mig) (b : FBatch) (c : FCmd) : FBatch × Bool :=
+  match c.kind with
+  | .normal => (b, view db b c.hs == some true)
+  | .fence =>
+    (match view db b c.hs with
+     | some true => (b, false)
+     | _ => ({ pending := upd b.pending c.hs (some true), staged := upd b.staged c.hs (some (some true)) }, false))
+  | .ack =>
+    (match view db b c.hs with
+     | none => (b, false)
+     | some f => ({ pending := upd b.pending c.hs (some f), staged := upd b.staged c.hs (some (some f)) }, false))
+  | .cleanup =>
+    (match view db b c.hs with
+     | none => (b, false)
+     | some _ =>
+       -- DeleteHashSlotMigrationState staged; `delete(pendingStates, hashSlot)`
+       ({ pending := upd b.pending c.hs none, staged := upd b.staged c.hs (some none) }, false))
+
+def commitF (db : Nat → Mig) (b : FBatch) : Nat → Mig := fun hs => viewTrue db b hs
+
+/-- one ApplyBatch: fenced flags of its commands and the committed rows -/
+def runBatchF (view : (Nat → Mig) → FBatch → Nat → Mig) (db : Nat → Mig) (cs : List FCmd) : List Bool × (Nat → Mig) :=
+  let r := cs.foldl (fun (acc : FBatch × List Bool) c =>
+    let (b', f) := fstepB view db acc.1 c
+    (b', acc.2 ++ [f])) (({} : FBatch), [])
+  (r.2, commitF db r.1)
+
+/-- the reference: every command in its own batch -/
+def seqF (view : (Nat → Mig) → FBatch → Nat → Mig) (db : Nat → Mig) : List FCmd → List Bool × (Nat → Mig)
+  | [] => ([], db)
+  | c :: cs =>
+    let (f1, db1) := runBatchF view db [c]
+    let (fs, db2) := seqF view db1 cs
+    (f1 ++ fs, db2)
+
+/-- the exception: a cleanup followed, in the same batch, by another command of the same hash slot -/
+def cleanupThenSameSlot : List FCmd → Bool
+  | [] => false
+  | c :: cs => (c.kind == .cleanup && cs.any (fun d => d.hs == c.hs)) || cleanupThenSameSlot cs
+
+/-- the batch loop as a fold from an arbitrary batch state -/
+def foldF (view : (Nat → Mig) → FBatch → Nat → Mig) (db : Nat → Mig) (b : FBatch) (fl : List Bool) (cs : List FCmd) :
+    FBatch × List Bool :=
+  cs.foldl (fun (acc : FBatch × List Bool) c =>
+    let (b', f) := fstepB view db acc.1 c
+    (b', acc.2 ++ [f])) (b, fl)
+
+/-! ### batches that contain refused commands -/
+
+section Refused
+variable {κ : Type} (cfg : Cfg) (d : Bytes → Except Err Nat) (one : One κ)
+
+/-- the reference for logs with refused commands: one at a time, a refused command is
+    skipped (what a restarted replica does after the slot failed on it) -/
+def seqSkip : St κ → List Cmd → St κ
+  | st, [] => st
+  | st, c :: cs =>
+    match stepOne cfg d one st c with
+    | .error _ => seqSkip st cs
+    | .ok (st', _) => seqSkip st' cs
+
+/-- one ApplyBatch; if it is refused, resume one at a time above the durable applied index -/
+def runBatchResume (st : St κ) (cs : List Cmd) : St κ :=
+  match applyBatch cfg d one st cs with
+  | (st', _, none) => st'
+  | (st', _, some _) => seqSkip cfg d one st' (replayTail st'.applied cs)
+
+end Refused
+
+
 end WK.C13
